@@ -47,6 +47,35 @@ func genC13(p *Plan, r *RNG) {
 		p.QuietNS = 20 * sec
 		return
 	}
+	if r.Chance(1, 14) {
+		// the periodic permission refresh is on the wire (its answer is slow) when the application
+		// writes to peers it has not written to before, and the first CreatePermission for one of
+		// them is answered 438 after the refresh has been answered: data for a peer leaves only
+		// once a CreatePermission naming that peer has succeeded
+		p.Flavor = "relay-refresh-race"
+		p.Cfg.Extra["perm_refresh_ms"] = 2000
+		p.Ops = append(p.Ops, Op{Actor: "app", Kind: "alloc", At: gap(10 * ms)})
+		p.Ops = append(p.Ops, Op{Actor: "app0", Kind: "writeto", At: gap(500 * ms), A: OpArgs{Peer: "10.0.2.1:5000", Len: 20}})
+		d1 := r.PickI64([]int64{200 * ms, 300 * ms, 500 * ms})
+		p.Reactions = append(p.Reactions, Reaction{Method: "createperm", Txn: 2, Do: "ok", DelayNS: d1})
+		p.Cfg.RTOms = 1000 // (no retransmission gets ahead of a slow answer)
+		p.Reactions = append(p.Reactions, Reaction{Method: "createperm", Txn: 3, Do: r.Pick([]string{"stale", "stale", "err:403"}), DelayNS: d1 + r.PickI64([]int64{100 * ms, 300 * ms})})
+		if r.Chance(1, 2) {
+			p.Reactions = append(p.Reactions, Reaction{Method: "createperm", Txn: 4, Do: "stale", DelayNS: d1 + 200*ms})
+		}
+		// the refresh timer started when the allocation succeeded (two round trips after the call)
+		tick := 10*ms + 4*p.Cfg.LatCSns + 2000*ms
+		var t int64 = 510 * ms
+		for i, off := range []int64{20 * ms, 60 * ms, 140 * ms} {
+			at := tick + off
+			p.Ops = append(p.Ops, Op{Actor: fmt.Sprintf("app%d", i%3), Kind: "writeto", At: gap(at - t), A: OpArgs{Peer: fmt.Sprintf("10.0.2.%d:%d", 2+i, 5010+i), Len: r.Range(9, 100)}})
+			t = at
+		}
+		p.Ops = append(p.Ops, Op{Actor: "app", Kind: "wait", At: gap(3 * sec)})
+		p.Ops = append(p.Ops, Op{Actor: "app", Kind: "bind_txn", At: gap(sec), A: OpArgs{Flags: []string{"probe"}}})
+		p.QuietNS = 20 * sec
+		return
+	}
 	if r.Chance(1, 12) {
 		// the server binds the channel when it receives the request and may relay on it at
 		// once; its success response is slow. ChannelData that arrives before the response
